@@ -355,8 +355,8 @@ func explorePair(scratch string, a, b op, bound int, rep *Report, deadline time.
 }
 
 func trunc(s string) string {
-	if len(s) > 160 {
-		return s[:160] + "…"
+	if len(s) > 700 {
+		return s[:700] + "…"
 	}
 	return s
 }
